@@ -208,8 +208,7 @@ theorem run_append (m : Mon) (tr : List Obs) (o : Obs) :
     Mon.run m (tr ++ [o]) = (Mon.run m tr).bind (fun m' => m'.step o) := by
   induction tr generalizing m with
   | nil =>
-    simp only [List.nil_append, Mon.run]
-    cases m.step o <;> rfl
+    cases h : m.step o <;> simp [Mon.run, h]
   | cons x xs ih =>
     simp only [List.cons_append, Mon.run]
     cases m.step x with
